@@ -16,6 +16,10 @@ import tlegen
 
 ID = "C11"
 LEAN_TARGETS = ["PV.Props.C11"]
+# T-D: functions translated from the source by harness/pytrans.py, proved equal to the model (DESIGN section 0)
+EQUIV = {"PV.Equiv.TranslatedOrbitNumReal": ["orbit_float_eq", "orbit_int_eq"],
+         "PV.Equiv.TranslatedOrbitNum": ["get_orbit_number_float_eq", "get_orbit_number_int_eq"],
+         "PV.Equiv.TranslatedNodeSearch": ["step_phase", "bisect_phase", "get_last_an_time_eq"]}
 RULE = ("TLEs: the repo's test TLEs and tlegen's real near-earth sets (own derivative fields) plus generated near-earth/LEO sets with "
         "inclination 3-177 deg (families: any, draggy, low |sin i| incl. exactly 3 and 177 deg, eccentric, epoch within 1.5 km of the ascending "
         "(or, 1 in 5, descending) node on either side, drag-free) whose ndot/2 and nddot/6 fields are re-encoded from the SGP4 secular "
